@@ -300,9 +300,10 @@ func main() {
 		}
 		fmt.Fprintf(&sb, "%q", l)
 	}
-	sb.WriteString("]\n\n/-- `function|lock|operation`: a lock held while the function waits for the event loop. -/\ndef heldWhileWaiting : List String := [\n")
+	sb.WriteString("]\n\n/-- (function, lock, operation): a lock held while the function waits for the event loop. -/\ndef heldWhileWaiting : List (String × String × String) := [\n")
 	for _, h := range heldWhileWaiting {
-		fmt.Fprintf(&sb, "  %q,\n", h)
+		p := strings.SplitN(h, "|", 3)
+		fmt.Fprintf(&sb, "  (%q, %q, %q),\n", p[0], p[1], p[2])
 	}
 	sb.WriteString("]\n\nend Rain.Generated.Access\n")
 	_ = os.WriteFile(filepath.Join(*out, "Access.lean"), []byte(sb.String()), 0o644)
